@@ -278,6 +278,36 @@ def gen_case(rng, tier, index):
         if fits:
             case["m"] = {"__npint__": [rng.choice(fits[:2]), m]}
             case["narrow_limit"] = True
+    if (isinstance(m, float) and m != int(m) and not case.get("huge") and float(np.float32(m)) == m and rng.random() < 0.25
+            and case.get("kind") in ("helper", "transfer") and ("vs" in case or "v" in case)):
+        # A non-integer limit held in single precision (numpy.float32 out of a configuration table; the value itself is
+        # exactly representable: 950.5, 2.5, 0.5, 12.25 ...).  Comparisons with such a limit are single-precision
+        # comparisons (the caller chose that precision, DESIGN 5.3 #16), so the volumes of these cases are kept where
+        # single precision is exact: multiples of 0.25 that are an exact multiple of the limit or clearly off one.
+        def _q(v):
+            try:
+                q = round(float(v) * 4) / 4.0
+            except (OverflowError, ValueError):
+                return None
+            if not math.isfinite(q) or q < 0 or q > 2**20:
+                return None
+            ratio = q / m
+            if ratio != round(ratio) and abs(ratio - round(ratio)) < 1e-3:
+                return None
+            return q
+
+        if "vs" in case:
+            vs = [x for x in (_q(v) for v in case["vs"]) if x is not None]
+            if vs:
+                case["vs"] = vs
+                case["m"] = {"__npscalar__": ["float32", m]}
+                case["single_precision_limit"] = True
+        else:
+            q = _q(case["v"])
+            if q is not None and not isinstance(case["v"], dict):
+                case["v"] = q
+                case["m"] = {"__npscalar__": ["float32", m]}
+                case["single_precision_limit"] = True
     if case.get("kind") == "transfer" and case.get("auto_split") and not case.get("huge") and rng.random() < 0.06:
         # the worklist has split a transfer before, under another step limit; the limit was re-assigned since
         fm = float(m)
@@ -360,6 +390,8 @@ def _gen_case(rng, tier, index):
 def run_case(ctx, case):
     kind = case["kind"]
     ctx.feature("kind", kind)
+    if case.get("single_precision_limit"):
+        ctx.count("limit_is_a_single_precision_float:" + kind)
     if kind == "helper":
         _run_helper(ctx, case)
     elif kind == "transfer":
